@@ -24,6 +24,8 @@ inductive OpRole where
   | wr    -- written, old value irrelevant: full register (VEX/EVEX and 32/64-bit GPR writes), store, result slot
   | rw    -- read and written: two-operand arithmetic, partial-register writes (MOVB/MOVW/ORB, legacy SSE),
           -- merge-masked destinations, lane inserts, read-modify-write memory operands
+  | wl    -- destination of a legacy (non-VEX) move: like `wr` for a GPR, memory or frame slot; an XMM destination
+          -- keeps bits 128.. of the ZMM register, i.e. is read as well
   | msk   -- AVX-512 opmask `{k}`: read; gates which elements of the destination / of memory are accessed
   | lea   -- address computation only (LEAQ): the value is the address, no memory access
   | im    -- an immediate is required here (selector / shift count)
@@ -56,6 +58,8 @@ namespace Shapes
 open OpRole
 /-- `OP src, dst` with `dst := f(src)` -/
 def mov : List (List OpRole) := [[rd, wr]]
+/-- legacy move (MOVL/MOVQ, also MOVD/MOVQ to XMM) -/
+def movl : List (List OpRole) := [[rd, wl]]
 /-- `OP src, dst` with `dst := f(src, dst)` -/
 def acc : List (List OpRole) := [[rd, rw]]
 /-- three-operand vector op `OP a, b, dst` -/
@@ -106,9 +110,9 @@ def roles (mn : String) : Option Role :=
   /- ---- amd64, integer.  Arithmetic and logic write all status flags (some "undefined" = unspecified function of
           the inputs); MOV/LEA leave them alone.  32- and 64-bit register writes replace the whole register,
           8- and 16-bit writes keep the upper bits (destination is read). -/
-  | "MOVL"              => some { shapes := mov }
+  | "MOVL"              => some { shapes := movl }           -- to XMM: MOVD xmm, r/m32 (bits 32..127 zeroed, 128.. kept)
   | "ADDQ"              => some { shapes := acc, wf := true }
-  | "MOVQ"              => some { shapes := mov }            -- also MOVD/MOVQ GPR -> XMM (upper bits zeroed)
+  | "MOVQ"              => some { shapes := movl }           -- to XMM: MOVQ xmm, r/m64 (bits 64..127 zeroed, 128.. kept)
   | "SUBQ"              => some { shapes := acc, wf := true }
   | "CMPQ"              => some { shapes := [[.rd, .rd]], wf := true }
   | "JLT"               => some { shapes := br, rf := true, kind := .jcc }
@@ -177,6 +181,7 @@ deriving DecidableEq, Repr
 def compat : OpRole → Opd → Bool
   | .rd, .reg _ | .rd, .regs _ | .rd, .imm _ | .rd, .mem .. | .rd, .sym .. | .rd, .symAddr .. | .rd, .frame .. => true
   | .wr, .reg _ | .wr, .regs _ | .wr, .mem .. | .wr, .frame .. => true
+  | .wl, .reg _ | .wl, .mem .. | .wl, .frame .. => true
   | .rw, .reg _ | .rw, .regs _ | .rw, .mem .. => true
   | .msk, .reg (.k _) => true
   | .lea, .sym .. | .lea, .mem .. => true
@@ -204,13 +209,14 @@ def optReg : Option Reg → List Reg
 def readsOf : List (OpRole × Opd) → List Reg
   | [] => []
   | (.rd, .reg r) :: t | (.rw, .reg r) :: t | (.msk, .reg r) :: t => r :: readsOf t
+  | (.wl, .reg (.vec n)) :: t => .vec n :: readsOf t
   | (.rd, .regs rs) :: t | (.rw, .regs rs) :: t => rs ++ readsOf t
   | (.lea, .mem b i _ _) :: t => b :: (optReg i ++ readsOf t)
   | _ :: t => readsOf t
 
 def writesOf : List (OpRole × Opd) → List Reg
   | [] => []
-  | (.wr, .reg r) :: t | (.rw, .reg r) :: t => r :: writesOf t
+  | (.wr, .reg r) :: t | (.rw, .reg r) :: t | (.wl, .reg r) :: t => r :: writesOf t
   | (.wr, .regs rs) :: t | (.rw, .regs rs) :: t => rs ++ writesOf t
   | _ :: t => writesOf t
 
@@ -223,7 +229,7 @@ def masksOf : List (OpRole × Opd) → List Reg
 def memsOf : List (OpRole × Opd) → List (MemRef × Bool × Bool)
   | [] => []
   | (.rd, .mem b i s d) :: t => (⟨b, i, s, d⟩, true, false) :: memsOf t
-  | (.wr, .mem b i s d) :: t => (⟨b, i, s, d⟩, false, true) :: memsOf t
+  | (.wr, .mem b i s d) :: t | (.wl, .mem b i s d) :: t => (⟨b, i, s, d⟩, false, true) :: memsOf t
   | (.rw, .mem b i s d) :: t => (⟨b, i, s, d⟩, true, true) :: memsOf t
   | _ :: t => memsOf t
 
@@ -234,7 +240,7 @@ def frameLoadsOf : List (OpRole × Opd) → List Nat
 
 def frameStoresOf : List (OpRole × Opd) → List Nat
   | [] => []
-  | (.wr, .frame _ off) :: t => off :: frameStoresOf t
+  | (.wr, .frame _ off) :: t | (.wl, .frame _ off) :: t => off :: frameStoresOf t
   | _ :: t => frameStoresOf t
 
 /-- loads from read-only data `name<>+off(SB)` -/
@@ -278,7 +284,7 @@ def isNzImm : List Opd → Bool
   | _ => false
 
 /-- `WORD $w` on arm64: only `TBX Vd.16B, {Vn.16B-V(n+3).16B}, Vm.16B`
-    (0 1 001110 00 0 Rm 0 11 1 00 Rn Rd; Arm ARM C7.2 TBX, Q=1, len=3) is admitted: extended table lookup in
+    (0 1 001110 00 0 Rm 0 11 1 00 Rn Rd; Arm ARM C7.2 TBX, Q=1, len=3) is accepted: extended table lookup in
     registers; reads Vd (kept where the index is out of range), the four table registers and Vm; writes Vd. -/
 def wordEff (w : Nat) : Option Eff :=
   if w &&& 0xFFE0FC00 == 0x4E007000 then
@@ -292,13 +298,14 @@ def wordEff (w : Nat) : Option Eff :=
   else none
 
 def effOf (i : Instr) : Option Eff :=
-  if i.mn = "WORD" then
-    match i.ops with
-    | [.imm w] => if 0 ≤ w then wordEff w.toNat else none
-    | _ => none
-  else
   match roles i.mn with
-  | none => none
+  | none =>
+    -- the only other accepted entry: arm64 `WORD $w` encoding a TBX
+    if i.mn = "WORD" then
+      match i.ops with
+      | [.imm w] => if 0 ≤ w then wordEff w.toNat else none
+      | _ => none
+    else none
   | some role =>
     match pickShape role.shapes i.ops with
     | none => none
@@ -420,10 +427,13 @@ def nextOf (rest : List Instr) (nx : Option Nat) : Option Nat :=
   | [] => nx
   | j :: _ => some j.pc
 
-/-- instruction at `pc` and the pc of the instruction that follows it in the listing -/
+/-- Instruction at `pc` and the pc of the instruction that follows it in the listing.  An entry of the listing whose
+    successor has the SAME pc occupies no bytes (Go's pseudo-instruction `NOP`): it is not an instruction and is
+    skipped. -/
 def fetchFrom : List Instr → Option Nat → Nat → Option (Instr × Option Nat)
   | [], _, _ => none
-  | i :: rest, nx, pc => if i.pc = pc then some (i, nextOf rest nx) else fetchFrom rest nx pc
+  | i :: rest, nx, pc =>
+    if i.pc = pc ∧ nextOf rest nx ≠ some pc then some (i, nextOf rest nx) else fetchFrom rest nx pc
 
 def fetch (prog : List Instr) (pc : Nat) : Option (Instr × Option Nat) := fetchFrom prog none pc
 
@@ -481,11 +491,8 @@ def maskOf : List Reg → Nat
   | [] => 0
   | r :: rs => regBit r ||| maskOf rs
 
-def TaintSet.has (T : TaintSet) (r : Reg) : Bool := T.testBit r.idx
-def TaintSet.flags (T : TaintSet) : Bool := T.testBit 0
-
 /-- Bit 128 is no register: it marks "reachable from the entry".  No instruction can clear it (`checkInstr`
-    only admits masks below 2^128), so under an inductive invariant every reachable pc carries it. -/
+    only accepts masks below 2^128), so under an inductive invariant every reachable pc carries it. -/
 def reachBit : Nat := 128
 
 /-- 2^128: bound on the masks of architectural registers -/
@@ -519,7 +526,7 @@ def transfer (e : Eff) (T : TaintSet) : TaintSet :=
 /-! ## 5. The checker -/
 
 /-- the fall-through successor exists and inherits the taint; an instruction that runs off the end of the listing
-    is admitted only if it is unreachable (padding after the last RET) -/
+    is accepted only if it is unreachable (padding after the last RET) -/
 def okNext (inv : Nat → TaintSet) (T' : TaintSet) : Option Nat → Bool
   | some n => subset T' (inv n)
   | none => !T'.testBit reachBit
@@ -577,62 +584,84 @@ def frameOk (prog : List Instr) : Bool :=
 
 /-! ## 6. Computing the invariant (untrusted: its result is checked by `checkInv`)
 
-  The invariant is kept as ONE natural number: the taint set of pc `p` occupies bits `stride·p … stride·p+128`.
-  (Natural-number primitives are evaluated eagerly by the kernel, list cells are not.) -/
+  The invariant is kept as ONE natural number: the taint set of the k-th instruction (k = 1, 2, …) occupies bits
+  `stride·k … stride·k+128`; a second number maps a pc to its k (16 bits per pc, 0 = no instruction there).
+  (Natural-number primitives are evaluated eagerly by the kernel, list cells are not; and numbers below ~100 KB
+  are cheap to allocate.) -/
 
 def stride : Nat := 129
 
-def unpack (big : Nat) (pc : Nat) : TaintSet := (big >>> (stride * pc)) % 680564733841876926926749214863536422912  -- mod 2^129
+def slot (big : Nat) (k : Nat) : TaintSet := (big >>> (stride * k)) % 680564733841876926926749214863536422912  -- mod 2^129
 
-def packAt (pc : Nat) (T : TaintSet) : Nat := T <<< (stride * pc)
+def packAt (k : Nat) (T : TaintSet) : Nat := T <<< (stride * k)
 
-/-- instruction with pre-computed masks -/
+/-- pc ↦ position (from 1) in the listing, packed 16 bits per pc; of several entries with the same pc (zero-length
+    `NOP`s before an instruction) the last one wins -/
+def idxMapFrom : List Instr → Nat → Nat → Nat
+  | [], _, m => m
+  | i :: rest, k, m => idxMapFrom rest (k + 1) (m ^^^ (((m >>> (16 * i.pc)) % 65536 ^^^ k) <<< (16 * i.pc)))
+
+def idxMap (prog : List Instr) : Nat := idxMapFrom prog 1 0
+
+def idxOf (m : Nat) (pc : Nat) : Nat := (m >>> (16 * pc)) % 65536
+
+/-- instruction with pre-computed masks; `target` is the POSITION of the branch target -/
 structure RI where
-  pc : Nat
   rmask : Nat
   wmask : Nat
   load : Bool
   kind : Kind
   target : Nat
 
-def resolve1 (i : Instr) : RI :=
+def resolve1 (m : Nat) (i : Instr) : RI :=
   match effOf i with
-  | some e => ⟨i.pc, readMask e, writeMask e, e.load, e.kind, e.target.getD 0⟩
-  | none => ⟨i.pc, 0, 0, false, .ret, 0⟩
+  | some e => ⟨readMask e, writeMask e, e.load, e.kind, match e.target with | some t => idxOf m t | none => 0⟩
+  | none => ⟨0, 0, false, .ret, 0⟩
 
 def RI.transfer (r : RI) (T : Nat) : Nat :=
   applyWrite (r.load || !Nat.beq (T &&& r.rmask) 0) T r.wmask
 
-/-- One sweep in listing order.  `big`: the packed invariant so far; `flow`: taint flowing in from the previous
-    instruction.  Contributions of branches are or-ed into `big` at the target: forward targets pick them up in the
-    same sweep, backward targets in the next one. -/
-def sweep : List RI → Nat → Nat → Nat
-  | [], big, _ => big
-  | r :: rs, big, flow =>
-    let cur := unpack big r.pc ||| flow
+/-- One sweep in listing order.  `k`: position of the current instruction; `big`: the packed invariant so far;
+    `flow`: taint flowing in from the previous instruction.  Contributions of branches are or-ed into `big` at the
+    target: forward targets pick them up in the same sweep, backward targets in the next one. -/
+def sweep : List RI → Nat → Nat → Nat → Nat
+  | [], _, big, _ => big
+  | r :: rs, k, big, flow =>
+    let cur := slot big k ||| flow
     let out := r.transfer cur
-    let big1 := big ||| packAt r.pc cur
+    let big1 := big ||| packAt k cur
     match r.kind with
-    | .seq => sweep rs big1 out
-    | .jcc => sweep rs (big1 ||| packAt r.target out) out
-    | .jmp => sweep rs (big1 ||| packAt r.target out) 0
-    | .ret => sweep rs big1 0
+    | .seq => sweep rs (k + 1) big1 out
+    | .jcc => sweep rs (k + 1) (big1 ||| packAt r.target out) out
+    | .jmp => sweep rs (k + 1) (big1 ||| packAt r.target out) 0
+    | .ret => sweep rs (k + 1) big1 0
 
 def iterate (ris : List RI) : Nat → Nat → Nat
   | 0, big => big
   | fuel + 1, big =>
-    let big' := sweep ris big 0
+    let big' := sweep ris 1 big 0
     bif Nat.beq big' big then big else iterate ris fuel big'
 
-/-- Least fixpoint of the transfer functions over the control-flow graph, packed; the entry (first instruction)
-    starts with `entryTaint`. -/
+/-- Least fixpoint of the transfer functions over the control-flow graph, packed by position; the entry (first
+    instruction) starts with `entryTaint`. -/
 def computeInv (prog : List Instr) (entryTaint : TaintSet) : Nat :=
-  match prog with
-  | [] => 0
-  | i :: _ => iterate (prog.map resolve1) 64 (packAt i.pc entryTaint)
+  iterate (prog.map (resolve1 (idxMap prog))) 64 (packAt 1 entryTaint)
 
-/-- the computed invariant as a function of the pc -/
-def invOf (prog : List Instr) : Nat → TaintSet := unpack (computeInv prog allTaint)
+/-- the invariant as a function of the pc, from the position map and the packed table -/
+def invFrom (m big : Nat) (pc : Nat) : TaintSet := slot big (idxOf m pc)
+
+/-- the computed invariant of a routine entered with everything tainted -/
+def invOf (prog : List Instr) : Nat → TaintSet := invFrom (idxMap prog) (computeInv prog allTaint)
+
+def entryPc : List Instr → Nat
+  | [] => 0
+  | i :: _ => i.pc
+
+/-- Everything that is decided per routine by kernel evaluation: the computed invariant passes `checkInv`
+    (with the instruction-boundary test on a bit set), at the entry it allows every register and the flags to be
+    tainted, and argument slots and result slots of the frame are disjoint. -/
+def certify (prog : List Instr) (declass : List Nat) : Bool :=
+  checkInvFast prog (invOf prog) declass && subset allTaint (invOf prog (entryPc prog)) && frameOk prog
 
 /-- The declassified branch: a `JNE` that follows `ORB _, r; CMPQ r, $0` (the tag-match verdict of Open). -/
 def declassOf : List Instr → List Nat
